@@ -369,3 +369,109 @@ def setAsSent_loop(self, prekeyIds):
     invariant(map_eq(db_w(self.dbConn), flag_all(old(db_w(self.dbConn)), prekeyIds[:loop_k()])))
     invariant(map_eq(db_d(self.dbConn), old(db_d(self.dbConn))))
     invariant(at_every_db_event(self.dbConn, lambda d: map_eq(d, old(db_d(self.dbConn)))))
+
+
+# ---- native scenario generators (real sqlite database per scenario; bounded stand-in and replay) ---------------------
+def _rec(rng):
+    return {'$record': [rng.randrange(256) for _ in range(rng.randrange(1, 12))]}
+
+
+def _real_prekeys(lo, n):
+    import importlib
+    kh = importlib.import_module('axolotl.util.keyhelper').KeyHelper
+    return kh.generatePreKeys(lo, n)
+
+
+def _sess_rows(rng):
+    ids = rng.sample(range(1, 6), rng.randrange(0, 4))
+    return [{'recipient_id': i, 'device_id': 1, 'record': [rng.randrange(256) for _ in range(5)]} for i in ids]
+
+
+def gen_storeSession(rng, n):
+    for _ in range(min(n, 60)):
+        yield {'inputs': {'self': {'dbConn': {'rows': _sess_rows(rng)}}, 'recipientId': rng.randrange(1, 6), 'deviceId': 1, 'sessionRecord': _rec(rng)}}
+
+
+def gen_deleteSession(rng, n):
+    for _ in range(min(n, 40)):
+        yield {'inputs': {'self': {'dbConn': {'rows': _sess_rows(rng)}}, 'recipientId': rng.randrange(1, 6), 'deviceId': rng.choice([1, 1, 2])}}
+
+
+def gen_containsSession(rng, n):
+    return gen_deleteSession(rng, n)
+
+
+def _id_rows(rng):
+    ids = rng.sample(range(1, 6), rng.randrange(0, 4))
+    return [{'recipient_id': i, 'public_key': [5] + [rng.randrange(256) for _ in range(4)]} for i in ids]
+
+
+class _FakeIdentityKey:
+    def __init__(self, b):
+        self.b = b
+
+    def getPublicKey(self):
+        return self
+
+    def serialize(self):
+        return self.b
+
+    def __deepcopy__(self, memo):
+        return self
+
+
+def _ik(rng, rows):
+    if rows and rng.random() < 0.5:
+        b = bytes(rng.choice(rows)['public_key'])
+    else:
+        b = bytes([5] + [rng.randrange(256) for _ in range(4)])
+    return {'$call': "importlib.import_module('contracts.C13_store')._FakeIdentityKey(%r)" % (b,)}
+
+
+def gen_saveIdentity(rng, n):
+    for _ in range(min(n, 60)):
+        rows = _id_rows(rng)
+        yield {'inputs': {'self': {'dbConn': {'rows': rows}}, 'recipientId': rng.randrange(1, 6), 'identityKey': _ik(rng, rows)}}
+
+
+def gen_isTrustedIdentity(rng, n):
+    return gen_saveIdentity(rng, n)
+
+
+def _pk_rows(rng):
+    ids = sorted(rng.sample(range(1, 9), rng.randrange(0, 7)))
+    keys = {k.getId(): k for k in _real_prekeys(1, 8)}
+    return [{'prekey_id': i, 'sent_to_server': rng.choice([None, None, 0, 1]), 'record': list(keys[i].serialize())} for i in ids]
+
+
+def gen_setAsSent(rng, n):
+    for _ in range(min(n, 60)):
+        rows = _pk_rows(rng)
+        ids = [r['prekey_id'] for r in rows]
+        pick = rng.sample(range(1, 10), rng.randrange(0, 4))
+        if len(ids) >= 3 and rng.random() < 0.5:
+            pick = [ids[0], ids[-1]]            # a non-consecutive batch with rows in between
+        yield {'inputs': {'self': {'dbConn': {'rows': rows}}, 'prekeyIds': pick}}
+
+
+def gen_loadUnsentPendingPreKeys(rng, n):
+    for _ in range(min(n, 40)):
+        yield {'inputs': {'self': {'dbConn': {'rows': _pk_rows(rng)}}}}
+
+
+def gen_loadPendingPreKeys(rng, n):
+    return gen_loadUnsentPendingPreKeys(rng, n)
+
+
+def gen_storePreKey(rng, n):
+    for _ in range(min(n, 40)):
+        yield {'inputs': {'self': {'dbConn': {'rows': _pk_rows(rng)}}, 'preKeyId': rng.randrange(1, 10), 'preKeyRecord': _rec(rng)}}
+
+
+def gen_removePreKey(rng, n):
+    for _ in range(min(n, 40)):
+        yield {'inputs': {'self': {'dbConn': {'rows': _pk_rows(rng)}}, 'preKeyId': rng.randrange(1, 10)}}
+
+
+def gen_loadMaxPreKeyId(rng, n):
+    return gen_loadUnsentPendingPreKeys(rng, n)
